@@ -6,7 +6,10 @@ require (
 	github.com/getlantern/bytemap v0.0.0-20210122162547-b07440a617f0
 	github.com/getlantern/goexpr v0.0.0-20211215215226-4cdd4fd2847b
 	github.com/getlantern/golog v0.0.0-20210606115803-bce9f9fe5a5f
+	github.com/getlantern/wal v0.0.0-20220217194315-e4eac848dbd1
 	github.com/getlantern/zenodb v0.0.0
+	github.com/gorilla/mux v1.7.1
+	github.com/gorilla/securecookie v1.1.1
 )
 
 replace github.com/getlantern/zenodb => /repo
